@@ -194,6 +194,20 @@ def generate(rng, tier):
         yield save_case(v, rng, "saved:" + type(v).__name__)
     for b in BOUNDARY_REALS:
         yield save_case(BReal(b), rng, "saved:boundary-real")
+    # nesting up to the supported depth (20 containers): dictionaries only, arrays only, alternating, random mixtures —
+    # every container kind must cost the same one level
+    def nest(d, how):
+        v = rng.choice([7, Name("x"), b"s", None, True])
+        for i in range(d):
+            kind = how if how in ("arr", "dict") else (("arr", "dict")[i % 2] if how == "alt" else rng.choice(["arr", "dict"]))
+            v = [v] if kind == "arr" else {S.rand_name(rng) if rng.random() < 0.3 else Name("K"): v}
+        return v
+    for d in (9, 10, 11, 14, 19, 20):
+        for how in ("arr", "dict", "alt", "mix"):
+            v = nest(d, how)
+            pre, suf, cname = rng.choice(CONTEXTS)
+            yield Case("ser_parse", [canon_impl2(v), suf], mfields=[canon_model(v), suf], check=parsed_equiv(v), tags=["ctx:" + cname, "depth:%d:%s" % (d, how)])
+            yield save_case(v, rng, "saved:depth:%d:%s" % (d, how))
     # streams with pending data as objects of their own: written by the real writer, re-loaded, data compared
     for i in range(60 if tier == "quick" else 1500):
         d = {}
